@@ -555,6 +555,22 @@ fn bool_literals(st: &mut Stats) {
     }
     inputs.push(b"\xff".to_vec());
     inputs.push(b"tr\xffue".to_vec());
+    // every single byte, and every literal with one position replaced by every byte (catches
+    // case folding done with bit tricks: 0x10|0x20 == '0', 'Y'^0x20 == 'y', 0xD9&0x7f == 'Y', ...)
+    for b in 0..=255u8 {
+        inputs.push(vec![b]);
+    }
+    for l in TRUE_LITS.iter().chain(FALSE_LITS.iter()) {
+        for pos in 0..l.len() {
+            for b in 0..=255u8 {
+                let mut v = l.as_bytes().to_vec();
+                v[pos] = b;
+                inputs.push(v);
+            }
+        }
+    }
+    inputs.sort();
+    inputs.dedup();
     st.add("bool.exhaustive_inputs", inputs.len() as u64);
     for s in &inputs {
         check_bool_input(st, s);
